@@ -204,6 +204,32 @@ def task(args):
                 body = b'\x00\x00' + struct.pack('!H', len(mp) + 4 + len(ls) + 4) + struct.pack('!BBH', 0x90, 14, len(mp)) + mp + \
                     struct.pack('!BBH', 0x90, 29, len(ls)) + ls
                 check('Update.parse', body, 'bgp-ls attr tlv %d' % t, must_not_raise=True)
+    elif kind == 'runs':
+        # a long run of one character class ended by one octet of another (what makes a careless regular expression explode),
+        # as the value of every link-state TLV
+        for t in args[1]:
+            for ch in (b'A', b'1', b' ', b'a.', b'\\'):
+                for n_ in (30, 44):
+                    for end in (b'\x00', b'\xff', b'\n', b''):
+                        val = (ch * n_)[:n_] + end
+                        tlv = struct.pack('!HH', t, len(val)) + val
+                        for name in ('LinkState.unpack', 'LinkState.unpack(proto=2)'):
+                            check(name, tlv, 'tlv %d character run' % t)
+    elif kind == 'floats':
+        # float fields: the IEEE-754 values that are not numbers or not finite, the extremes and a fraction
+        specials = [bytes.fromhex(h) for h in ('7f800000', 'ff800000', '7fc00000', 'ffc00001', '00000000', '80000000', '00000001', '7f7fffff', 'ff7fffff', '3f000000', '4a7fffff')]
+        for f in specials:
+            for asn in (0, 100, 65535):
+                ec = struct.pack('!HH', 0x8006, asn) + f
+                for tail in (b'', struct.pack('!HHI', 0x0002, 100, 1)):
+                    val = ec + tail
+                    check('ExtCommunity.parse', val, 'traffic-rate float special')
+                    body = b'\x00\x00' + struct.pack('!H', len(val) + 3) + struct.pack('!BBB', 0xC0, 16, len(val)) + val
+                    check('Update.parse', body, 'traffic-rate float special', must_not_raise=True)
+            # link-state TLVs with IEEE-754 bandwidth fields (1089 max link bw, 1090 reservable, 1091 unreserved x 8)
+            for t, reps in ((1089, 1), (1090, 1), (1091, 8)):
+                tlv = struct.pack('!HH', t, 4 * reps) + f * reps
+                check('LinkState.unpack', tlv, 'tlv %d float special' % t)
     elif kind == 'dupattr':
         # the same attribute type twice (and three times) in one UPDATE, with and without a BGP-LS MP_REACH in front
         mp = struct.pack('!HBB', 16388, 71, 4) + b'\x0a\x00\x00\x01\x00' + struct.pack('!HH', 1, 21) + b'\x02' + b'\x00' * 7 + b'\x01' + \
@@ -351,6 +377,9 @@ def run(tier, seed):
         tasks.append(('hugetlv', lt[i:i + 8]))
     for lo in range(0, 256, 32):
         tasks.append(('dupattr', lo, lo + 32))
+    for i in range(0, len(lt), 16):
+        tasks.append(('runs', lt[i:i + 16]))
+    tasks.append(('floats',))
     ntails = 1 + 256 + 65536
     for lo in range(0, ntails, 2200):
         tasks.append(('v4tails', lo, lo + 2200))
